@@ -155,15 +155,12 @@ theorem layout_split {v : Nat} {s : Sec} {ss : List Sec} (hs : s ∈ ss) (start 
       · simp; omega
 
 /-- `ref_import_meshb_jump` to a section that the layout contains -/
-theorem jump_present {cfg : Cfg} {v : Nat} {ss : List Sec} {A : Bytes} {fuel : Nat} {s : Sec}
+theorem jump_present {cfg : Cfg} {v : Nat} {ss : List Sec} {A : Bytes} {fuel : Nat}
     (hA : 0 < A.length) (hf : ss.length < fuel)
     (hss : ∀ s ∈ ss, Sec.exact v s ∧ s.kw < 156)
     (hfit : posFits v ((A.length + (layout v A.length ss).length : Nat) : Int))
-    (hnd : (ss.map Sec.kw ++ [54]).Nodup) (hs : s ∈ ss) :
-    ∃ kp rest, headerScan cfg v (A ++ layout v A.length ss) fuel (A.length : Int) [] = .ok kp ∧
-      jump v (A ++ layout v A.length ss) kp s.kw =
-        .ok (some ((((A ++ layout v A.length ss).length - rest.length : Nat) : Int), s.body ++ rest)) ∧
-      rest.length ≤ (A ++ layout v A.length ss).length ∧
+    (hnd : (ss.map Sec.kw ++ [54]).Nodup) :
+    ∃ kp, headerScan cfg v (A ++ layout v A.length ss) fuel (A.length : Int) [] = .ok kp ∧
       (∀ k, k ∉ ss.map Sec.kw ++ [54] → KeyPos.get kp k = none) ∧
       (∀ s' ∈ ss, ∃ rest', jump v (A ++ layout v A.length ss) kp s'.kw =
         .ok (some ((((A ++ layout v A.length ss).length - rest'.length : Nat) : Int), s'.body ++ rest')) ∧
@@ -200,8 +197,7 @@ theorem jump_present {cfg : Cfg} {v : Nat} {ss : List Sec} {A : Bytes} {fuel : N
       congr 3
       rw [List.length_append]; omega
     · rw [List.length_append]; omega
-  obtain ⟨rest, hj, hr⟩ := hjump s hs
-  refine ⟨_, rest, hscan, hj, by omega, ?_, hjump⟩
+  refine ⟨_, hscan, ?_, hjump⟩
   intro k hk
   apply KeyPos.get_none
   rw [List.map_reverse, List.mem_reverse, secOffsets_keys]; exact hk
